@@ -303,6 +303,18 @@ def auths_templates():
     return T
 
 
+EXT_NAMES = [b"server-sig-algs", b"server-sig-algs", b"no-flow-control", b"x\xff", b""]
+EXT_VALUES = [b"rsa-sha2-512,rsa-sha2-256,ssh-rsa", b"ssh-ed25519", b"rsa-sha2-512", b"p"]
+
+
+def ext_info_payload(name, value, extra):
+    """EXT_INFO with one (name, value) pair plus `extra` well-formed pairs."""
+    body = R.u32(1 + extra) + R.string(name) + R.string(value)
+    for i in range(extra):
+        body += R.string(b"ext%d@verif" % i) + R.string(b"v")
+    return bytes([7]) + body
+
+
 # ----------------------------------------------------------------------------- oracle helpers
 
 
@@ -396,11 +408,11 @@ def _quiet(fn):
         return e
 
 
-def run_authc(ctx, method, msgs, record=True):
+def run_authc(ctx, method, msgs, record=True, early=(), service_transport=False):
     """Tested client inside an auth_* call; msgs: [(after, payload)] where after is 5 or 50:
     the puppet server sends payload once it has seen a message of that type."""
-    case = {"family": "authc", "method": method, "msgs": msgs}
-    link, tc, ts = peers.make_pair(client_cls=peers.VTransport, server_cls=peers.Puppet)
+    case = {"family": "authc", "method": method, "msgs": msgs, "early": list(early), "service_transport": service_transport}
+    link, tc, ts = peers.make_pair(client_cls=peers.VServiceTransport if service_transport else peers.VTransport, server_cls=peers.Puppet)
     ce, se = peers.start_both(tc, ts, peers.OpenServer())
     res = {}
     th = None
@@ -410,6 +422,16 @@ def run_authc(ctx, method, msgs, record=True):
             return True
         ts.raw()
         pool = peers.keypool()
+        # messages the server volunteers after NEWKEYS, before the application starts to authenticate
+        for p in early:
+            seen = len(ts.log)
+            try:
+                ts.send_raw_seq(p)
+                ts.send_raw_seq(peers.m_global_request(SENT, True))
+            except Exception:
+                break
+            if wait_sentinel_or_death(ts, tc, seen) != "reply":
+                break
 
         def call():
             try:
@@ -717,14 +739,14 @@ def run(ctx):
         run_post(ctx, role, msgs, pending)
 
     def body_authc(c):
-        method, ms, accept_first = c
+        method, ms, accept_first, early, service_tr = c
         msgs = []
         if accept_first:
             msgs.append((5, bytes([6]) + R.string(b"ssh-userauth")))
         for i, m in ms:
             t, f = authc_t[i]
             msgs.append((5 if (t == 6 and not accept_first) else 50, mutate(t, f, m)))
-        run_authc(ctx, method, msgs)
+        run_authc(ctx, method, msgs, early=[ext_info_payload(*e) for e in early], service_transport=service_tr)
 
     def body_auths(c):
         policy, ms, svc_first = c
@@ -739,37 +761,19 @@ def run(ctx):
         comp = how == "zlib"
         run_wire(ctx, role, cipher, mac, comp, how, off, mask)
 
-    n = ctx.scale(1, 12)
-    fams = os.environ.get("C38_FAMILIES", "pre,post,authc,auths,wire").split(",")  # diagnostics only
-    if "pre" in fams:
-        ctx.explore(pre_case(), body_pre, 260 * n, shrink=False, seed_offset=1)
-    if "post" in fams:
-      ctx.explore(
-        st.tuples(st.sampled_from(["client", "server"]), _msgs_from(post_c, 3), st.booleans()),
-        body_post,
-        220 * n,
-        shrink=False,
-        seed_offset=2,
-      )
-    if "authc" in fams:
-      ctx.explore(
-        st.tuples(st.sampled_from(["none", "password", "publickey", "publickey-rsa", "interactive"]), _msgs_from(authc_t, 2), st.booleans()),
-        body_authc,
-        70 * n,
-        shrink=False,
-        seed_offset=3,
-      )
-    if "auths" in fams:
-      ctx.explore(
-        st.tuples(st.sampled_from([0, 1, 2]), _msgs_from(auths_t, 3), st.booleans()),
-        body_auths,
-        220 * n,
-        shrink=False,
-        seed_offset=4,
-      )
-    if "wire" in fams:
-      ctx.explore(
-        st.tuples(
+    bodies = {"pre": body_pre, "post": body_post, "authc": body_authc, "auths": body_auths, "wire": body_wire}
+    strategies = {
+        "pre": pre_case(),
+        "post": st.tuples(st.sampled_from(["client", "server"]), _msgs_from(post_c, 3), st.booleans()),
+        "authc": st.tuples(
+            st.sampled_from(["none", "password", "publickey", "publickey-rsa", "publickey-rsa", "interactive"]),
+            _msgs_from(authc_t, 2),
+            st.booleans(),
+            st.lists(st.tuples(st.sampled_from(EXT_NAMES), st.one_of(st.sampled_from(BADSTR), st.sampled_from(EXT_VALUES)), st.integers(0, 3)), max_size=2),
+            st.booleans(),
+        ),
+        "auths": st.tuples(st.sampled_from([0, 1, 2]), _msgs_from(auths_t, 3), st.booleans()),
+        "wire": st.tuples(
             st.sampled_from(["client", "server"]),
             st.sampled_from(["aes128-ctr", "aes256-cbc", "3des-cbc", "aes128-gcm@openssh.com", "aes256-gcm@openssh.com"]),
             st.sampled_from(["hmac-sha2-256", "hmac-sha1-96", "hmac-sha2-512-etm@openssh.com", "hmac-md5"]),
@@ -777,11 +781,14 @@ def run(ctx):
             st.integers(0, 400),
             st.integers(0, 255),
         ),
-        body_wire,
-        60 * n,
-        shrink=False,
-        seed_offset=5,
-      )
+    }
+    # families are interleaved (one draw picks the family) so that a budget hit thins all of them evenly
+    weights = {"pre": 6, "post": 5, "authc": 4, "auths": 6, "wire": 2}
+    fams = [f for f in os.environ.get("C38_FAMILIES", "pre,post,authc,auths,wire").split(",") if f in bodies]  # diagnostics only
+    tagged = []
+    for f in fams:
+        tagged += [strategies[f].map(lambda c, f=f: (f, c))] * weights[f]
+    ctx.explore(st.one_of(*tagged), lambda fc: bodies[fc[0]](fc[1]), ctx.scale(700, 9000), shrink=False, seed_offset=1)
 
 
 def replay(ctx, case):
@@ -791,7 +798,7 @@ def replay(ctx, case):
     elif fam == "post":
         run_post(ctx, case["role"], case["msgs"], case["pending_open"])
     elif fam == "authc":
-        run_authc(ctx, case["method"], [(a, p) for a, p in case["msgs"]])
+        run_authc(ctx, case["method"], [(a, p) for a, p in case["msgs"]], early=case.get("early", ()), service_transport=case.get("service_transport", False))
     elif fam == "auths":
         run_auths(ctx, case["policy"], case["msgs"])
     elif fam == "wire":
